@@ -37,6 +37,12 @@ fn parse_args() -> Args {
 
 fn main() {
     out::install_quiet_panic_hook();
+    if std::env::args().nth(1).as_deref() == Some("corpus") {
+        for s in ohv::monitors::common::corpus() {
+            println!("{s}");
+        }
+        return;
+    }
     if std::env::args().nth(1).as_deref() == Some("parse") {
         // debugging aid: one expression per stdin line -> parsed AST, printed form, normal form
         for line in std::io::stdin().lines() {
